@@ -4,32 +4,33 @@
   `_current_proto`, declaration caches) and, through `Proofs/C11Rename.lean`, about the C10 model
   of `assignScratchSlotsToSubroutines`.
 
-  FULL STATEMENT (believed FALSE of the unchanged code, kept visible):
-
-    theorem compile_history_independent :
-      ∀ (h₁ h₂ target : List Op), observeTarget target (run h₁ init) = observeTarget target (run h₂ init)
-
-  i.e. what a program that shares no object with earlier activity compiles to does not depend on
-  that activity.  It fails in two ways, each exhibited by a `decide`d counterexample below and
-  replayed on the real code by harness/props/c11.py:
-  * `session_counterexample`: `_frame_pointer_context` (subroutine.py:840-845) has no try/finally;
-    a subroutine body that raises while a version-8 program is compiled leaves
-    `SubroutineEval._current_proto` set, and an unrelated `abi.Uint64()` created afterwards in a
-    main routine becomes frame variable 0 of that dead proto (`frame_bury 0` outside any frame).
-  * `router_recompile_counterexample`: `Router._cleaning_context` rewinds `ScratchSlot.nextSlotId`
-    while the method declarations cached by the first `compile_program` keep their slot objects;
-    the second build creates new slot objects with the SAME ids, `sorted(allSlots, key=id)` has
-    ties, and the numbering is decided by the iteration order of a set of objects.
-
-  PROVED (for all inputs):
+  PROVED AT FULL STRENGTH (all histories, failing and raising ones included — true of the code since
+  commit 6bedda4 put the restore of `_frame_pointer_context` in a `finally:`):
+  * `session_inv`              `currentProto = none` between top-level API calls, counters only grow
+                               from 256/0, slot objects well formed
+  * `decl_shape_inv`           cached declarations depend only on their definition
+  * `compile_history_independent`  what a target that shares no object with earlier activity compiles
+                               to is the same after any two histories (model tie-break)
   * `compile_rel_order_only`   the compile result depends only on the relative order of the
                                program's own slot ids and subroutine ids
   * `compile_tiebreak_irrelevant` with pairwise different ids, every sort-by-id gives that result
-  * `decl_shape_inv`           (all histories) cached declarations depend only on their definition
-  * `session_inv_partial`      (histories in which no body raises) `currentProto = none` between
-                               API calls, counters only grow from 256/0, slot objects well formed
-  * `compile_history_independent_partial`  the full statement restricted to such histories
   * `compile_idempotent`       compiling the same objects again gives the same result
+
+  STILL PARTIAL (the statement about the code, for EVERY order in which CPython may iterate the
+  set `allSlots`, kept visible above `compile_history_independent_anysort_partial`):
+  * `compile_history_independent_anysort_partial`  history- AND tie-break-independence for targets
+                               none of whose compilations has colliding slot ids
+  * `router_recompile_counterexample`  (`decide`) why the restriction is needed:
+    `Router._cleaning_context` rewinds `ScratchSlot.nextSlotId` while the method declarations cached
+    by the first `compile_program` keep their slot objects; the second build creates new slot
+    objects with the SAME ids, `sorted(allSlots, key=id)` has ties, and two valid sorts give
+    different numberings.  Replayed on the real code by harness/props/c11.py (known finding
+    `C11-router-recompile-slot-id-collision`).
+
+  REGRESSION WITNESS
+  * `session_counterexample_old`  on `evaluateOld` (the code before 6bedda4: no try/finally) a raising
+    frame-pointer evaluation left the marker set and the next unrelated `abi.Uint64()` became frame
+    variable 0; `session_counterexample_fixed` computes the same history on the present model.
 -/
 import PyTealV.Models.Session
 import PyTealV.Proofs.C10
@@ -453,7 +454,8 @@ def evAbis (s : State) (d : Name) (info : DefInfo) (fl : Flavour) : List Storage
   allocAbis info.abis (evVars s d info fl).2
 
 theorem evaluate_raise (s : State) (d : Name) (info : DefInfo) (fl : Flavour) (h : info.raises fl = true) :
-    evaluate s d info fl = (none, (evAbis s d info fl).2) := by
+    evaluate s d info fl =
+      (none, { (evAbis s d info fl).2 with currentProto := (evPre s info fl).2.currentProto }) := by
   simp only [evaluate, h, if_true]
   rfl
 
@@ -471,8 +473,16 @@ theorem evAbis_frame (s : State) (d : Name) (info : DefInfo) (fl : Flavour) : Fr
 theorem evaluate_frame (s : State) (d : Name) (info : DefInfo) (fl : Flavour) : Frame s (evaluate s d info fl).2 := by
   have f := evAbis_frame s d info fl
   cases h : info.raises fl with
-  | true => rw [evaluate_raise s d info fl h]; exact f
+  | true => rw [evaluate_raise s d info fl h]; exact ⟨f.env, f.slot⟩
   | false => rw [evaluate_ok s d info fl h]; exact ⟨f.env, f.slot⟩
+
+/-- **the marker is restored by every evaluation**, raising or not (`try/finally` in
+    `_frame_pointer_context`) -/
+theorem evaluate_proto (s : State) (d : Name) (info : DefInfo) (fl : Flavour) :
+    (evaluate s d info fl).2.currentProto = s.currentProto := by
+  cases h : info.raises fl with
+  | true => rw [evaluate_raise s d info fl h]; simp [evPre]
+  | false => rw [evaluate_ok s d info fl h]; simp [evPre]
 
 /-- the declaration an evaluation returns: well-formed slot objects, and a shape that depends on
     the definition and the convention only — whatever `currentProto` was before -/
@@ -503,36 +513,6 @@ theorem evaluate_some (s : State) (d : Name) (info : DefInfo) (fl : Flavour) (c 
       · exact allocSlots_wf _ _ (Nat.le_trans hn f1.slot) x hx
       · exact allocAbis_wf _ _ (Nat.le_trans hn (f1.trans (allocSlots_frame _ _)).slot) x hx
     · simp [evPre]
-
-theorem allocAbis_owner (n : Nat) (t : State) (p : Proto) (d : Name) (hp : t.currentProto = some p)
-    (ho : p.owner = d) : ∃ q, (allocAbis n t).2.currentProto = some q ∧ q.owner = d := by
-  induction n generalizing t p with
-  | zero => exact ⟨p, hp, ho⟩
-  | succ n ih =>
-    simp only [allocAbis]
-    unfold allocAbi
-    simp only [hp]
-    split
-    · exact ih _ _ rfl ho
-    · exact ih _ p (by simp [allocSlot, hp]) ho
-
-/-- a raising evaluation under the SCRATCH convention leaves the marker unset; under frame
-    pointers it leaves it SET (no try/finally in `_frame_pointer_context`) -/
-theorem evaluate_none (s : State) (d : Name) (info : DefInfo) (fl : Flavour)
-    (h : (evaluate s d info fl).1 = none) :
-    (fl = .scratch → (evaluate s d info fl).2.currentProto = none) ∧
-      (fl = .fp → ∃ p, (evaluate s d info fl).2.currentProto = some p ∧ p.owner = d) := by
-  cases hr : info.raises fl with
-  | false => rw [evaluate_ok s d info fl hr] at h; cases h
-  | true =>
-    rw [evaluate_raise s d info fl hr]
-    have hproto : (evVars s d info fl).2.currentProto = entryProto d info fl := by
-      simp [evVars, evEntry]
-    constructor
-    · rintro rfl
-      exact allocAbis_protoNone _ _ (by rw [hproto]; rfl)
-    · rintro rfl
-      exact allocAbis_owner _ _ ⟨d, if info.hasOutput then 1 else 0⟩ d (by rw [hproto]; rfl) rfl
 
 theorem DefOK_setDecl_none {ds : DefState} (h : DefOK ds) (fl : Flavour) : DefOK (ds.setDecl fl none) := by
   intro fl' c hc
@@ -615,17 +595,14 @@ theorem getDeclaration_some (s : State) (d : Name) (ds ds' : DefState) (fl : Fla
         · exact hev.2.1 hn x hx
       · cases fl <;> simp [DefState.setDecl, DefState.decl]
 
-theorem getDeclaration_none (s : State) (d : Name) (ds : DefState) (fl : Flavour)
-    (h : (getDeclaration s d ds fl).1 = none) (hfl : fl = .scratch) :
-    (getDeclaration s d ds fl).2.currentProto = none := by
+theorem getDeclaration_proto (s : State) (d : Name) (ds : DefState) (fl : Flavour) :
+    (getDeclaration s d ds fl).2.currentProto = s.currentProto := by
   cases hc : ds.decl fl with
-  | some c => rw [getDeclaration_cached s d ds fl c hc] at h; cases h
+  | some c => rw [getDeclaration_cached s d ds fl c hc]
   | none =>
     cases he : (evaluate s d ds.info fl).1 with
-    | some c => rw [getDeclaration_eval_some s d ds fl c hc he] at h; cases h
-    | none =>
-      rw [getDeclaration_eval_none s d ds fl hc he]
-      exact (evaluate_none s d ds.info fl he).1 hfl
+    | some c => rw [getDeclaration_eval_some s d ds fl c hc he]; exact evaluate_proto s d ds.info fl
+    | none => rw [getDeclaration_eval_none s d ds fl hc he]; exact evaluate_proto s d ds.info fl
 
 theorem probe_some (s : State) (d : Name) (ds ds1 : DefState) (fl : Flavour)
     (h : (getDeclaration s d ds fl).1 = some ds1) :
@@ -665,6 +642,12 @@ theorem probe_spec (s : State) (d : Name) (ds : DefState) (fl : Flavour) (hn : N
         · cases hx
     · split <;> simp [hs.2.1]
 
+theorem probe_proto (s : State) (d : Name) (ds : DefState) (fl : Flavour) :
+    (probe s d ds fl).2.currentProto = s.currentProto := by
+  cases hg : (getDeclaration s d ds fl).1 with
+  | none => rw [probe_none s d ds fl hg]; exact getDeclaration_proto s d ds fl
+  | some ds1 => rw [probe_some s d ds ds1 fl hg]; exact getDeclaration_proto s d ds fl
+
 theorem infoPrepare_known (s : State) (d : Name) (ds : DefState) (h : ds.infoKnown = true) :
     infoPrepare s d ds = (some ds, s) := by simp [infoPrepare, h]
 
@@ -681,6 +664,22 @@ theorem infoPrepare_ok (s : State) (d : Name) (ds ds1 ds2 : DefState) (h : ds.in
     (h1 : (probe s d ds .scratch).1 = some ds1) (h2 : (probe (probe s d ds .scratch).2 d ds1 .fp).1 = some ds2) :
     infoPrepare s d ds = (some { ds2 with infoKnown := true }, (probe (probe s d ds .scratch).2 d ds1 .fp).2) := by
   simp [infoPrepare, h, h1, h2]
+
+theorem infoPrepare_proto (s : State) (d : Name) (ds : DefState) :
+    (infoPrepare s d ds).2.currentProto = s.currentProto := by
+  cases hk : ds.infoKnown with
+  | true => rw [infoPrepare_known s d ds hk]
+  | false =>
+    cases h1 : (probe s d ds .scratch).1 with
+    | none => rw [infoPrepare_raise1 s d ds hk h1]; exact probe_proto s d ds .scratch
+    | some ds1 =>
+      cases h2 : (probe (probe s d ds .scratch).2 d ds1 .fp).1 with
+      | none =>
+        rw [infoPrepare_raise2 s d ds ds1 hk h1 h2]
+        exact (probe_proto _ d ds1 .fp).trans (probe_proto s d ds .scratch)
+      | some ds2 =>
+        rw [infoPrepare_ok s d ds ds1 ds2 hk h1 h2]
+        exact (probe_proto _ d ds1 .fp).trans (probe_proto s d ds .scratch)
 
 theorem infoPrepare_spec (s : State) (d : Name) (ds : DefState) (hn : NUM_SLOTS ≤ s.nextSlotId) (hok : SubOK ds) :
     (infoPrepare s d ds).2.env = s.env ∧ NUM_SLOTS ≤ (infoPrepare s d ds).2.nextSlotId ∧
@@ -765,9 +764,9 @@ theorem SubOK_of_lookup {s : State} (h : EnvInv s) {n : Name} {ds : DefState} (h
 
 theorem evalAll_inv (fl : Flavour) (names : List Name) (s : State) (h : EnvInv s) :
     EnvInv (evalAll fl names s).2 ∧
-      (s.currentProto = none → (evalAll fl names s).1 = true → (evalAll fl names s).2.currentProto = none) := by
+      (s.currentProto = none → (evalAll fl names s).2.currentProto = none) := by
   induction names generalizing s with
-  | nil => exact ⟨h, fun hp _ => hp⟩
+  | nil => exact ⟨h, fun hp => hp⟩
   | cons n rest ih =>
     simp only [evalAll]
     split
@@ -775,15 +774,15 @@ theorem evalAll_inv (fl : Flavour) (names : List Name) (s : State) (h : EnvInv s
       have hok := SubOK_of_lookup h hl
       have f := getDeclaration_frame s n ds fl
       cases hg : (getDeclaration s n ds fl).1 with
-      | none => exact ⟨h.frame f, fun _ hb => by cases hb⟩
+      | none => exact ⟨h.frame f, fun hp => (getDeclaration_proto s n ds fl).trans hp⟩
       | some ds' =>
         have hs := getDeclaration_some s n ds ds' fl h.next hok hg
         have hinv : EnvInv ((getDeclaration s n ds fl).2.bind n (.sub ds')) := (h.frame f).bind n hs.1
         have := ih _ hinv
-        refine ⟨this.1, fun hp hb => this.2 ?_ hb⟩
+        refine ⟨this.1, fun hp => this.2 ?_⟩
         show (getDeclaration s n ds fl).2.currentProto = none
         rw [hs.2.2.2.2]; exact hp
-    · exact ⟨h, fun _ hb => by cases hb⟩
+    · exact ⟨h, fun hp => hp⟩
 
 theorem compileTail_fst (sortf : List Slot → List Slot) (r : Bool × State) (ms : List Slot) (ma : List Storage)
     (subs : List Name) (extra : List (Nat × Decl)) (fl : Flavour) (failsAt : Option Stage) :
@@ -810,31 +809,29 @@ theorem compileWith_inv (sortf : List Slot → List Slot) (s : State) (ms : List
     (inOrder : Bool) (h : EnvInv s) :
     EnvInv (compileWith sortf s ms ma subs extra version fp failsAt inOrder).1 ∧
       (s.currentProto = none →
-        (compileWith sortf s ms ma subs extra version fp failsAt inOrder).2 ≠ .raised .body →
-          (compileWith sortf s ms ma subs extra version fp failsAt inOrder).1.currentProto = none) := by
+        (compileWith sortf s ms ma subs extra version fp failsAt inOrder).1.currentProto = none) := by
   unfold compileWith
   split
-  · exact ⟨h, fun hp _ => hp⟩
+  · exact ⟨h, fun hp => hp⟩
   · split
-    · exact ⟨h, fun hp _ => hp⟩
+    · exact ⟨h, fun hp => hp⟩
     · split
-      · exact ⟨h, fun hp _ => hp⟩
+      · exact ⟨h, fun hp => hp⟩
       · rename_i ids _
         have he := evalAll_inv (flavourOf fp) (evalOrder inOrder subs ids) s h
         rw [compileTail_fst]
-        exact ⟨he.1, fun hp hne => he.2 hp (compileTail_noBody _ _ _ _ _ _ _ _ hne)⟩
+        exact ⟨he.1, fun hp => he.2 hp⟩
 
 theorem compileProg_inv (sortf : List Slot → List Slot) (s : State) (p : Prog) (version : Nat)
     (fpOpt : Option Bool) (failsAt : Option Stage) (h : EnvInv s) :
     EnvInv (compileProg sortf s p version fpOpt failsAt).1 ∧
-      (s.currentProto = none → (compileProg sortf s p version fpOpt failsAt).2 ≠ .raised .body →
-        (compileProg sortf s p version fpOpt failsAt).1.currentProto = none) := by
+      (s.currentProto = none → (compileProg sortf s p version fpOpt failsAt).1.currentProto = none) := by
   unfold compileProg
   split
-  · exact ⟨h, fun hp _ => hp⟩
+  · exact ⟨h, fun hp => hp⟩
   · split
     · exact compileWith_inv _ _ _ _ _ _ _ _ _ _ h
-    · exact ⟨h, fun hp _ => hp⟩
+    · exact ⟨h, fun hp => hp⟩
 
 theorem storeIntoState_some (s : State) (d : Name) (ds ds' : DefState)
     (hg : (getDeclaration s d ds .scratch).1 = some ds') :
@@ -852,7 +849,7 @@ theorem storeIntoState_inv (s : State) (d : Name) (ds : DefState) (h : EnvInv s)
   cases hg : (getDeclaration s d ds .scratch).1 with
   | none =>
     rw [storeIntoState_none s d ds hg]
-    exact ⟨h.frame f, fun _ => getDeclaration_none s d ds .scratch hg rfl⟩
+    exact ⟨h.frame f, fun hp => (getDeclaration_proto s d ds .scratch).trans hp⟩
   | some ds' =>
     rw [storeIntoState_some s d ds ds' hg]
     have hs := getDeclaration_some s d ds ds' .scratch h.next hok hg
@@ -933,20 +930,19 @@ theorem buildMethods_inv (fp : Bool) (ms : List (Name × Nat)) (s : State) (h : 
 
 theorem routerCompile_inv (sortf : List Slot → List Slot) (s : State) (r : Name) (version : Nat) (h : EnvInv s) :
     EnvInv (routerCompile sortf s r version).1 ∧
-      (s.currentProto = none → (routerCompile sortf s r version).2 ≠ .raised .body →
-        (routerCompile sortf s r version).1.currentProto = none) := by
+      (s.currentProto = none → (routerCompile sortf s r version).1.currentProto = none) := by
   unfold routerCompile
   split
   · rename_i rs _
     have hb := buildMethods_inv (decide (8 ≤ version)) rs.methods s h
     simp only
     split
-    · exact ⟨hb.1.of_env rfl h.next, fun hp _ => hb.2.1 hp⟩
+    · exact ⟨hb.1.of_env rfl h.next, fun hp => hb.2.1 hp⟩
     · rename_i built _
       have hc := compileWith_inv sortf (buildMethods (decide (8 ≤ version)) rs.methods s).2 [] built.mainAbis
         (rs.methods.map (·.1)) built.casters version (decide (8 ≤ version)) none (decide (8 ≤ version)) hb.1
-      exact ⟨hc.1.of_env rfl h.next, fun hp hne => hc.2 (hb.2.1 hp) hne⟩
-  · exact ⟨h, fun hp _ => hp⟩
+      exact ⟨hc.1.of_env rfl h.next, fun hp => hc.2 (hb.2.1 hp)⟩
+  · exact ⟨h, fun hp => hp⟩
 
 theorem routerBuild_inv (s : State) (r : Name) (version : Nat) (h : EnvInv s) :
     EnvInv (routerBuild s r version).1 ∧
@@ -959,25 +955,24 @@ theorem routerBuild_inv (s : State) (r : Name) (version : Nat) (h : EnvInv s) :
     split <;> exact ⟨hb.1, hb.2.1⟩
   · exact ⟨h, fun hp => hp⟩
 
-/-- one API call: the environment invariant always survives; an unset marker stays unset unless
-    the call raised out of a subroutine body -/
+/-- one API call: the environment invariant survives and an unset marker stays unset — whether the
+    call returns or raises -/
 theorem step_inv (sortf : List Slot → List Slot) (s : State) (op : SOp) (h : EnvInv s) :
     EnvInv (stepWith sortf s op).1 ∧
-      (s.currentProto = none → (stepWith sortf s op).2 ≠ .raised .body →
-        (stepWith sortf s op).1.currentProto = none) := by
+      (s.currentProto = none → (stepWith sortf s op).1.currentProto = none) := by
   cases op with
   | newSlot x =>
-    exact ⟨(h.frame (allocSlot_frame s)).bind x (ObjOK_slot (allocSlot_wf s h.next)), fun hp _ => hp⟩
+    exact ⟨(h.frame (allocSlot_frame s)).bind x (ObjOK_slot (allocSlot_wf s h.next)), fun hp => hp⟩
   | newSlotReq x n =>
     simp only [stepWith]
     split
     · rename_i hn
       refine ⟨(h.of_env (s' := { s with nextObj := s.nextObj + 1 }) rfl h.next).bind x (ObjOK_slot ⟨fun _ => hn, fun hr => by cases hr⟩),
-        fun hp _ => hp⟩
-    · exact ⟨h, fun hp _ => hp⟩
+        fun hp => hp⟩
+    · exact ⟨h, fun hp => hp⟩
   | newSubroutine d info =>
     refine ⟨(h.of_env (s' := { s with nextSubroutineId := s.nextSubroutineId + 1 }) rfl h.next).bind d
-      ⟨fun x hx => by simp [objSlots, optSlots] at hx, fun ds e => ?_⟩, fun hp _ => hp⟩
+      ⟨fun x hx => by simp [objSlots, optSlots] at hx, fun ds e => ?_⟩, fun hp => hp⟩
     cases e
     intro fl c hc
     cases fl <;> simp [DefState.decl] at hc
@@ -988,13 +983,13 @@ theorem step_inv (sortf : List Slot → List Slot) (s : State) (op : SOp) (h : E
       have hok := SubOK_of_lookup h hl
       have f := getDeclaration_frame s d ds fl
       cases hg : (getDeclaration s d ds fl).1 with
-      | none => exact ⟨h.frame f, fun _ hne => absurd rfl hne⟩
+      | none => exact ⟨h.frame f, fun hp => (getDeclaration_proto s d ds fl).trans hp⟩
       | some ds' =>
         have hs := getDeclaration_some s d ds ds' fl h.next hok hg
-        exact ⟨(h.frame f).bind d hs.1, fun hp _ => by
+        exact ⟨(h.frame f).bind d hs.1, fun hp => by
           show (getDeclaration s d ds fl).2.currentProto = none
           rw [hs.2.2.2.2]; exact hp⟩
-    · exact ⟨h, fun hp _ => hp⟩
+    · exact ⟨h, fun hp => hp⟩
   | probeInfo d =>
     simp only [stepWith]
     split
@@ -1002,29 +997,29 @@ theorem step_inv (sortf : List Slot → List Slot) (s : State) (op : SOp) (h : E
       have hok := SubOK_of_lookup h hl
       have hp := infoPrepare_spec s d ds h.next hok
       cases hg : (infoPrepare s d ds).1 with
-      | none => exact ⟨h.of_env hp.1 hp.2.1, fun _ hne => absurd rfl hne⟩
+      | none => exact ⟨h.of_env hp.1 hp.2.1, fun hpn => (infoPrepare_proto s d ds).trans hpn⟩
       | some ds' =>
         have hs := hp.2.2 ds' hg
-        exact ⟨(h.of_env hp.1 hp.2.1).bind d hs.1, fun hpn _ => by
+        exact ⟨(h.of_env hp.1 hp.2.1).bind d hs.1, fun hpn => by
           show (infoPrepare s d ds).2.currentProto = none
           rw [hs.2.1]; exact hpn⟩
-    · exact ⟨h, fun hp _ => hp⟩
+    · exact ⟨h, fun hp => hp⟩
   | storeInto d =>
     simp only [stepWith]
     split
     · rename_i ds hl
       have := storeIntoState_inv s d ds h (SubOK_of_lookup h hl)
-      exact ⟨this.1, fun hp _ => this.2 hp⟩
-    · exact ⟨h, fun hp _ => hp⟩
+      exact ⟨this.1, fun hp => this.2 hp⟩
+    · exact ⟨h, fun hp => hp⟩
   | newAbiValue x =>
     exact ⟨(h.frame (allocAbi_frame s)).bind x (ObjOK_abi (allocAbi_wf s h.next)),
-      fun hp _ => allocAbi_protoNone s hp⟩
-  | tmpl n => exact ⟨h.of_env rfl h.next, fun hp _ => hp⟩
+      fun hp => allocAbi_protoNone s hp⟩
+  | tmpl n => exact ⟨h.of_env rfl h.next, fun hp => hp⟩
   | compile p version fpOpt failsAt => exact compileProg_inv sortf s p version fpOpt failsAt h
-  | newRouter r methods => exact ⟨h.bind r (ObjOK_router _), fun hp _ => hp⟩
+  | newRouter r methods => exact ⟨h.bind r (ObjOK_router _), fun hp => hp⟩
   | routerBuild r version =>
     have := routerBuild_inv s r version h
-    exact ⟨this.1, fun hp _ => this.2 hp⟩
+    exact ⟨this.1, fun hp => this.2 hp⟩
   | routerCompile r version => exact routerCompile_inv sortf s r version h
 
 theorem init_inv : EnvInv init := ⟨Nat.le_refl _, fun e he => by cases he⟩
@@ -1046,32 +1041,23 @@ theorem decl_shape_inv (ops : List SOp) :
   have h := run_inv ops init init_inv
   exact ⟨h.next, fun n ds fl c hl hc => (h.lookup hl).shape ds rfl fl c hc, fun n o hl => (h.lookup hl).wf⟩
 
-/-- no call of the session raised out of a subroutine body -/
-def NoBodyRaise (ops : List SOp) (s : State) : Prop := ∀ o ∈ observe ops s, o ≠ .raised .body
-
-theorem run_proto_none (ops : List SOp) (s : State) (h : EnvInv s) (hp : s.currentProto = none)
-    (hr : NoBodyRaise ops s) : (run ops s).currentProto = none := by
+theorem run_proto_none (ops : List SOp) (s : State) (h : EnvInv s) (hp : s.currentProto = none) :
+    (run ops s).currentProto = none := by
   induction ops generalizing s with
   | nil => exact hp
   | cons op rest ih =>
     have hs := step_inv sortById s op h
-    have hne : (stepWith sortById s op).2 ≠ .raised .body := hr _ (by simp [observe, observeWith])
-    refine ih _ hs.1 (hs.2 hp hne) ?_
-    intro o ho
-    exact hr o (by simp only [observe, observeWith, List.mem_cons]; exact Or.inr ho)
+    exact ih _ hs.1 (hs.2 hp)
 
-/-
-  FULL STATEMENT (false of the unchanged code, see `session_counterexample`):
-    theorem session_inv : ∀ ops, (run ops init).currentProto = none
--/
-
-/-- **`session_inv_partial`**: for every history in which no call raises out of a subroutine body
-    (failing compilations at every other stage, swallowed failures inside `store_into`, probing,
-    router builds and re-compilations are all allowed), `SubroutineEval._current_proto` is `None`
-    between top-level API calls, and the environment invariant of `decl_shape_inv` holds. -/
-theorem session_inv_partial (ops : List SOp) (hr : NoBodyRaise ops init) :
+/-- **`session_inv`** (ALL histories — full statement, true since commit 6bedda4 put the restore of
+    `_frame_pointer_context` in a `finally:`): whatever API calls were made and however they ended
+    — compilations failing at any stage, subroutine bodies raising under either calling convention
+    during a compilation, a probe, a `store_into` or a router build — between top-level API calls
+    `SubroutineEval._current_proto` is `None`, and the environment invariant of `decl_shape_inv`
+    holds.  (The statement was false of the code before that commit: `session_counterexample_old`.) -/
+theorem session_inv (ops : List SOp) :
     (run ops init).currentProto = none ∧ EnvInv (run ops init) :=
-  ⟨run_proto_none ops init init_inv rfl hr, run_inv ops init init_inv⟩
+  ⟨run_proto_none ops init init_inv rfl, run_inv ops init init_inv⟩
 
 /-! ## History independence: a different history only SHIFTS the counters -/
 
@@ -1696,32 +1682,28 @@ theorem forgetNames_eq_shift (s : State) (hp : s.currentProto = none) (hn : NUM_
     and_true]
   omega
 
-/-- what a target compiles to after a history in which no body raised is what it compiles to in a
-    fresh process -/
-theorem observeTarget_after_history (history target : List SOp) (hr : NoBodyRaise history init) :
+/-- what a target compiles to after ANY history is what it compiles to in a fresh process -/
+theorem observeTarget_after_history (history target : List SOp) :
     observeTarget target (run history init) = observe target init := by
-  have hi := session_inv_partial history hr
+  have hi := session_inv history
   unfold observeTarget
   rw [forgetNames_eq_shift _ hi.1 hi.2.next]
   exact sh_observe _ target init init_inv
 
-/-
-  FULL STATEMENT (false of the unchanged code, see `session_counterexample` and
-  `router_recompile_counterexample`):
-    theorem compile_history_independent : ∀ h₁ h₂ target,
-      observeTarget target (run h₁ init) = observeTarget target (run h₂ init)
--/
+/-- **`compile_history_independent`** (full statement, all histories): whatever two histories came
+    before — any number of unrelated slots, subroutines, ABI values, templates; programs and routers
+    compiled at any version and option; compilations FAILING at any stage, subroutine bodies raising
+    included; probing; router re-compilations — a target that shares no object with them (it runs
+    in its own name space) yields the same observations: the same slot numbers, label indices, ABI
+    locations, and the same failures.
 
-/-- **`compile_history_independent_partial`**: whatever two histories came before — any number of
-    unrelated slots, subroutines, ABI values, templates; programs and routers compiled at any
-    version and option, or failing to compile at any stage other than inside a subroutine body;
-    probing; router re-compilations — a target that shares no object with them (it runs in its own
-    name space) yields the same observations: the same slot numbers, label indices, ABI locations,
-    and the same failures. -/
-theorem compile_history_independent_partial (h₁ h₂ target : List SOp)
-    (hr₁ : NoBodyRaise h₁ init) (hr₂ : NoBodyRaise h₂ init) :
+    What this statement fixes and the code does not: the model breaks ties of
+    `sorted(allSlots, key=id)` by first occurrence.  The real tie-break is CPython's iteration order
+    of a set of objects; see `compile_history_independent_anysort_partial` and
+    `router_recompile_counterexample` below. -/
+theorem compile_history_independent (h₁ h₂ target : List SOp) :
     observeTarget target (run h₁ init) = observeTarget target (run h₂ init) := by
-  rw [observeTarget_after_history h₁ target hr₁, observeTarget_after_history h₂ target hr₂]
+  rw [observeTarget_after_history h₁ target, observeTarget_after_history h₂ target]
 
 /-! ## Compiling the same objects again -/
 
@@ -1993,7 +1975,7 @@ theorem compile_idempotent (s : State) (p : Prog) (version : Nat) (fpOpt : Optio
   have hnoop := evalAll_noop (flavourOf fp) (evalOrder false p.subs ids) _ hcached
   exact (compileTail_compiled _ _ _ _ _ _ _ _).2 ⟨hnoop.1, decls, by rw [getDecls_lookupEq hnoop.2]; exact hd, hc⟩
 
-/-! ## The full statement is false of the unchanged code: counterexamples -/
+/-! ## Regression witness: the code before commit 6bedda4 -/
 
 /-- a version-8 program whose only subroutine raises in its body -/
 def leakHistory : List SOp :=
@@ -2002,33 +1984,215 @@ def leakHistory : List SOp :=
 /-- an unrelated program: `x = abi.Uint64()` in the main routine, compiled at version 8 -/
 def abiTarget : List SOp := [.newAbiValue 2, .compile ⟨[], [2], []⟩ 8 none none]
 
-/-- **`session_counterexample`**: the failing compilation raises out of the subroutine body and
-    leaves `currentProto` set to that subroutine's proto; the unrelated ABI value created afterwards
-    becomes frame variable 0 (`frame_bury 0 / frame_dig 0` outside any frame), whereas in a fresh
-    process it is scratch slot 0.  Replayed on the real code by harness/props/c11.py
-    (key `C11-proto-leak-after-failed-compile`). -/
-theorem session_counterexample :
+/-- on the code AS IT IS: the compilation fails out of the subroutine body, the marker is unset
+    afterwards, and the unrelated ABI value lives in scratch slot 0 exactly as in a fresh process
+    (an instance of `session_inv` / `compile_history_independent`, computed) -/
+theorem session_counterexample_fixed :
     observe leakHistory init = [.unit, .raised .body] ∧
-    (run leakHistory init).currentProto = some ⟨1, 0⟩ ∧
-    observeTarget abiTarget (run leakHistory init) = [.unit, .compiled ⟨[], [.frame 0], [], [], [], false⟩] ∧
+    (run leakHistory init).currentProto = none ∧
+    observeTarget abiTarget (run leakHistory init) = [.unit, .compiled ⟨[], [.slot (some 0)], [], [], [], false⟩] ∧
     observeTarget abiTarget (run [] init) = [.unit, .compiled ⟨[], [.slot (some 0)], [], [], [], false⟩] := by
   decide
 
-/-- the invariant `currentProto = none` does not hold after every history -/
-theorem session_inv_counterexample : ¬ ∀ ops : List SOp, (run ops init).currentProto = none :=
-  fun h => by have := h leakHistory; revert this; decide
+/-- **`session_counterexample_old`** (REGRESSION WITNESS for fix 6bedda4, on `evaluateOld` /
+    `evalDeclarationOld`, the model of `_frame_pointer_context` without `try/finally`): evaluating
+    the frame-pointer declaration of a subroutine whose body raises left `currentProto` set to that
+    subroutine's proto, and the next `alloc_abstract_var` — an unrelated `abi.Uint64()` in a main
+    routine — returned frame variable 0 of that dead proto (`frame_bury 0 / frame_dig 0` outside
+    any frame), where the present code returns a scratch variable.  harness/props/c11.py replays
+    this history on the real code and reports a VIOLATION if the old behaviour ever comes back. -/
+theorem session_counterexample_old :
+    let s := (step init (.newSubroutine 1 ⟨1, 0, 0, false, false, true⟩)).1
+    (evalDeclarationOld s 1 .fp).2 = true ∧
+    (evalDeclarationOld s 1 .fp).1.currentProto = some ⟨1, 0⟩ ∧
+    (allocAbi (evalDeclarationOld s 1 .fp).1).1 = .frame 1 0 ∧
+    (step s (.evalDeclaration 1 .fp)).2 = .raised .body ∧
+    (step s (.evalDeclaration 1 .fp)).1.currentProto = none ∧
+    (allocAbi (step s (.evalDeclaration 1 .fp)).1).1 = .scratch ⟨0, 256, false⟩ := by
+  decide
 
-/-- history independence does not hold for every pair of histories -/
-theorem compile_history_independent_counterexample :
-    ¬ ∀ h₁ h₂ target : List SOp, observeTarget target (run h₁ init) = observeTarget target (run h₂ init) :=
-  fun h => by have := h leakHistory [] abiTarget; revert this; decide
+/-! ## What remains false: the tie-break of `sorted(allSlots, key=id)` after a router re-compilation -/
+
+/-- no compilation of the observation list had colliding slot ids -/
+def NoTieObs : Obs → Prop
+  | .compiled r => r.tie = false
+  | _ => True
+
+instance : DecidablePred NoTieObs := fun o => by
+  cases o <;> simp only [NoTieObs] <;> infer_instance
+
+theorem isReorder_of_isSortById {sortf : List Slot → List Slot} (hs : IsSortById sortf) : IsReorder sortf :=
+  fun l => (hs l).1
+
+/-- every error of a compilation is raised before the sort is consulted -/
+theorem compileObjsWith_error_iff {sortf : List Slot → List Slot} (hs : IsSortById sortf) (ms : List Slot)
+    (ma : List Storage) (subs : List (Nat × Decl)) (e : PyTealV.Models.Slots.Err) :
+    compileObjsWith sortf ms ma subs = .error e ↔ compileObjs ms ma subs = .error e := by
+  have key : ∀ (f : List Slot → List Slot), IsReorder f →
+      (compileObjsWith f ms ma subs = .error e ↔
+        assignWith f (slotProgram (ms ++ storageSlots ma) ((sortByKey subs).map (·.2))) = .error e) := by
+    intro f _
+    simp only [compileObjsWith]
+    cases assignWith f (slotProgram (ms ++ storageSlots ma) ((sortByKey subs).map (·.2))) with
+    | ok r => simp
+    | error e' => simp
+  unfold compileObjs
+  rw [key sortf (isReorder_of_isSortById hs), key sortById sortById_isReorder, assignWith_error (isReorder_of_isSortById hs),
+    assignWith_error sortById_isReorder]
+
+/-- the model's result is the result for EVERY sort-by-id, unless ids collide -/
+theorem compileObjsWith_eq {sortf : List Slot → List Slot} (hs : IsSortById sortf) (ms : List Slot)
+    (ma : List Storage) (subs : List (Nat × Decl))
+    (hn : ∀ r, compileObjs ms ma subs = .ok r → r.tie = false) :
+    compileObjsWith sortf ms ma subs = compileObjs ms ma subs := by
+  cases hc : compileObjs ms ma subs with
+  | ok r => rw [← hc]; exact compile_tiebreak_irrelevant hs ms ma subs ((tie_flag_spec hc).1 (hn r hc))
+  | error e => exact (compileObjsWith_error_iff hs ms ma subs e).2 hc
+
+theorem compileTail_tiebreak {sortf : List Slot → List Slot} (hs : IsSortById sortf) (r : Bool × State)
+    (ms : List Slot) (ma : List Storage) (subs : List Name) (extra : List (Nat × Decl)) (fl : Flavour)
+    (failsAt : Option Stage) (hn : NoTieObs (compileTail sortById r ms ma subs extra fl failsAt).2) :
+    compileTail sortf r ms ma subs extra fl failsAt = compileTail sortById r ms ma subs extra fl failsAt := by
+  unfold compileTail at hn ⊢
+  cases hb : r.1 with
+  | false => rfl
+  | true =>
+    simp only [hb, Bool.true_eq_false, if_false] at hn ⊢
+    cases hd : getDecls r.2 fl subs with
+    | none => rfl
+    | some decls =>
+      simp only [hd] at hn ⊢
+      cases hc : compileObjsWith sortById ms ma (decls ++ extra) with
+      | error e =>
+        rw [(compileObjsWith_error_iff hs ms ma (decls ++ extra) e).2 hc]
+      | ok res =>
+        simp only [hc] at hn
+        by_cases hl : failsAt = some Stage.late
+        · -- the late failure hides the result; the other sort does not fail earlier either
+          cases hc' : compileObjsWith sortf ms ma (decls ++ extra) with
+          | error e =>
+            have := (compileObjsWith_error_iff hs ms ma (decls ++ extra) e).1 hc'
+            unfold compileObjs at this
+            rw [hc] at this
+            cases this
+          | ok res' => simp [hl]
+        · simp only [hl, if_false] at hn
+          have : compileObjsWith sortf ms ma (decls ++ extra) = compileObjs ms ma (decls ++ extra) := by
+            apply compileObjsWith_eq hs
+            intro res'' hres
+            unfold compileObjs at hres
+            rw [hc] at hres
+            cases hres
+            exact hn
+          unfold compileObjs at this
+          rw [this, hc]
+
+theorem compileWith_tiebreak {sortf : List Slot → List Slot} (hs : IsSortById sortf) (s : State) (ms : List Slot)
+    (ma : List Storage) (subs : List Name) (extra : List (Nat × Decl)) (version : Nat) (fp : Bool)
+    (failsAt : Option Stage) (inOrder : Bool)
+    (hn : NoTieObs (compileWith sortById s ms ma subs extra version fp failsAt inOrder).2) :
+    compileWith sortf s ms ma subs extra version fp failsAt inOrder =
+      compileWith sortById s ms ma subs extra version fp failsAt inOrder := by
+  unfold compileWith at hn ⊢
+  split
+  · rfl
+  · split
+    · rfl
+    · cases hi : getSubIds s subs with
+      | none => rfl
+      | some ids =>
+        rename_i h1 h2
+        simp only [h1, h2, hi, if_false] at hn
+        exact compileTail_tiebreak hs _ ms ma subs extra _ failsAt hn
+
+/-- one API call under another tie-break: the same successor state and, unless slot ids collide in
+    its compilation, the same observation -/
+theorem stepWith_tiebreak {sortf : List Slot → List Slot} (hs : IsSortById sortf) (s : State) (op : SOp)
+    (hn : NoTieObs (step s op).2) : stepWith sortf s op = step s op := by
+  unfold step at hn ⊢
+  cases op with
+  | compile p version fpOpt failsAt =>
+    simp only [stepWith, compileProg] at hn ⊢
+    cases hu : useFp version fpOpt with
+    | none => rfl
+    | some fp =>
+      cases hsl : getSlots s p.slots with
+      | none => rfl
+      | some ms =>
+        cases ha : getAbis s p.abis with
+        | none => rfl
+        | some ma =>
+          simp only [hu, hsl, ha] at hn ⊢
+          exact compileWith_tiebreak hs s ms ma p.subs [] version fp failsAt false hn
+  | routerCompile r version =>
+    simp only [stepWith, routerCompile] at hn ⊢
+    cases hl : s.lookup r with
+    | none => rfl
+    | some o =>
+      cases o with
+      | router rs =>
+        simp only [hl] at hn ⊢
+        cases hb : (buildMethods (decide (8 ≤ version)) rs.methods s).1 with
+        | none => rfl
+        | some built =>
+          simp only [hb] at hn ⊢
+          rw [compileWith_tiebreak hs _ [] built.mainAbis (rs.methods.map (·.1)) built.casters version _ none _ hn]
+      | slot x => rfl
+      | abi a => rfl
+      | sub d => rfl
+  | newSlot x => rfl
+  | newSlotReq x n => rfl
+  | newSubroutine d info => rfl
+  | evalDeclaration d fl => rfl
+  | probeInfo d => rfl
+  | storeInto d => rfl
+  | newAbiValue x => rfl
+  | tmpl n => rfl
+  | newRouter r methods => rfl
+  | routerBuild r version => rfl
+
+theorem observeWith_tiebreak {sortf : List Slot → List Slot} (hs : IsSortById sortf) (ops : List SOp) (s : State)
+    (hn : ∀ o ∈ observe ops s, NoTieObs o) : observeWith sortf ops s = observe ops s := by
+  induction ops generalizing s with
+  | nil => rfl
+  | cons op rest ih =>
+    have h1 : NoTieObs (step s op).2 := hn _ (by simp [observe, observeWith, step])
+    have hst := stepWith_tiebreak hs s op h1
+    unfold step at hst
+    simp only [observe, observeWith] at hn ih ⊢
+    rw [hst, ih _ (fun o ho => hn o (List.mem_cons_of_mem _ ho))]
+
+/-
+  FULL STATEMENT about the code (FALSE, see `router_recompile_counterexample`):
+    theorem compile_history_independent_anysort : ∀ sortf sortf', IsSortById sortf → IsSortById sortf' →
+      ∀ h₁ h₂ target, observeWith sortf target (run h₁ init).forgetNames
+                       = observeWith sortf' target (run h₂ init).forgetNames
+  i.e. the TEAL of a target is a function of the target alone, whatever order CPython iterates the
+  set `allSlots` in.
+-/
+
+/-- **`compile_history_independent_anysort_partial`**: for a target none of whose compilations has
+    colliding slot ids (every target except one that calls `Router.compile_program` again below
+    version 8, see `router_recompile_counterexample`), the observations are the same after any two
+    histories AND under any two tie-breaks of `sorted(allSlots, key=id)`: nothing CPython's set
+    order, the hash seed or the addresses of objects could change. -/
+theorem compile_history_independent_anysort_partial {sortf sortf' : List Slot → List Slot}
+    (hs : IsSortById sortf) (hs' : IsSortById sortf') (h₁ h₂ target : List SOp)
+    (hn : ∀ o ∈ observe target init, NoTieObs o) :
+    observeWith sortf target (run h₁ init).forgetNames = observeWith sortf' target (run h₂ init).forgetNames := by
+  have e₁ := observeTarget_after_history h₁ target
+  have e₂ := observeTarget_after_history h₂ target
+  unfold observeTarget at e₁ e₂
+  rw [observeWith_tiebreak hs target _ (by rw [e₁]; exact hn), observeWith_tiebreak hs' target _ (by rw [e₂]; exact hn),
+    e₁, e₂]
 
 /-- two methods with an output on one router, compiled twice below version 8 -/
 def routerSession : List SOp :=
   [.newSubroutine 1 ⟨1, 1, 0, true, false, false⟩, .newSubroutine 2 ⟨1, 0, 0, true, false, false⟩,
    .newRouter 3 [(1, 2), (2, 2)], .routerCompile 3 6, .routerCompile 3 6]
 
-/-- **`router_recompile_counterexample`**: the first `compile_program` has no id collision; the
+/-- **`router_recompile_counterexample`** (the finding that REMAINS: key
+    `C11-router-recompile-slot-id-collision`): the first `compile_program` has no id collision; the
     second one re-builds the wrappers at the rewound counter, so their new slot objects carry the ids
     of the slot objects cached in the first method's declaration (`tie`), the numbering differs
     from the first compilation, and two functions that both sort by id (first- and last-occurrence
@@ -2051,31 +2215,30 @@ theorem router_recompile_counterexample :
 
 /-! ## Non-vacuity -/
 
-/-- a non-trivial history satisfying the hypothesis of `session_inv_partial` /
-    `compile_history_independent_partial`: slots, a requested id given twice (compile error), a
-    failure injected in the main routine, a late failure, probing, a subroutine whose SCRATCH body
-    raises inside `store_into` (swallowed), a router compiled twice -/
+/-- a non-trivial history: slots, a requested id given twice (compile error), a failure injected
+    in the main routine, a late failure, probing, subroutine bodies that raise under the scratch
+    convention (inside `store_into`, swallowed) and under frame pointers (in a version-8 compilation
+    and in a probe), a router compiled three times -/
 def quietHistory : List SOp :=
   [.newSlot 1, .newSlotReq 2 17, .newSlotReq 3 17, .newSubroutine 4 ⟨2, 1, 1, false, false, false⟩,
    .compile ⟨[1, 2, 3], [], [4]⟩ 8 none none, .compile ⟨[1, 2], [], [4]⟩ 6 none (some .mainTeal),
    .compile ⟨[1, 2], [], [4]⟩ 6 none (some .late), .probeInfo 4, .newSlotReq 5 300,
    .newSubroutine 6 ⟨1, 0, 1, true, true, false⟩, .storeInto 6, .newSubroutine 7 ⟨1, 1, 0, true, false, false⟩,
    .newSubroutine 9 ⟨1, 0, 1, true, false, false⟩,
-   .newRouter 8 [(7, 2), (9, 2)], .routerCompile 8 6, .routerCompile 8 8, .routerCompile 8 6, .tmpl 3]
+   .newRouter 8 [(7, 2), (9, 2)], .routerCompile 8 6, .routerCompile 8 8, .routerCompile 8 6, .tmpl 3,
+   .newSubroutine 10 ⟨1, 2, 2, false, false, true⟩, .compile ⟨[1], [], [4, 10]⟩ 9 none none, .probeInfo 10]
 
-instance (ops : List SOp) (s : State) : Decidable (NoBodyRaise ops s) := by
-  unfold NoBodyRaise; infer_instance
-
-example : NoBodyRaise quietHistory init := by decide
-
-/-- … in which compilations do fail, a swallowed body failure does happen and a re-compilation
-    does hit an id collision -/
+/-- … in which compilations do fail, bodies do raise (swallowed and not) and a re-compilation does
+    hit an id collision -/
 example : (observe quietHistory init)[4]? = some (.raised (.slots .dupRequested)) ∧
     (observe quietHistory init)[5]? = some (.raised (.stage .mainTeal)) ∧
     (observe quietHistory init)[6]? = some (.raised (.stage .late)) ∧
     (observe quietHistory init)[8]? = some (.raised .input) ∧
     (observe quietHistory init)[10]? = some .unit ∧
-    ((observe quietHistory init)[16]?).map (fun o => match o with | .compiled r => r.tie | _ => false) = some true := by
+    ((observe quietHistory init)[16]?).map (fun o => match o with | .compiled r => r.tie | _ => false) = some true ∧
+    (observe quietHistory init)[19]? = some (.raised .body) ∧
+    (observe quietHistory init)[20]? = some (.raised .body) ∧
+    (run quietHistory init).currentProto = none := by
   decide
 
 /-- a target with slots, ABI values and two subroutines: same observations after both histories -/
@@ -2084,8 +2247,14 @@ def richTarget : List SOp :=
    .newSubroutine 5 ⟨0, 1, 2, false, false, false⟩, .compile ⟨[2, 4], [3], [5, 1]⟩ 8 none none,
    .compile ⟨[2, 4], [3], [5, 1]⟩ 6 none none]
 
-example : observeTarget richTarget (run quietHistory init) = observeTarget richTarget (run [] init) :=
-  compile_history_independent_partial quietHistory [] richTarget (by decide) (by decide)
+example : observeTarget richTarget (run quietHistory init) = observeTarget richTarget (run leakHistory init) :=
+  compile_history_independent quietHistory leakHistory richTarget
+
+/-- … and under another tie-break: the rich target has no id collision -/
+example : observeWith (fun l => sortById l.reverse) richTarget (run quietHistory init).forgetNames =
+    observeWith sortById richTarget (run [] init).forgetNames :=
+  compile_history_independent_anysort_partial sortById_reverse_isSortById sortById_isSortById quietHistory []
+    richTarget (by decide)
 
 example : observeTarget richTarget (run [] init) =
     [.unit, .unit, .unit, .unit, .unit,
